@@ -20,8 +20,11 @@ from .. import batch, wire
 from ..common import CARGO_ENV, NPROC, REPO, TOOLCHAIN, WORK, MachineryError, ensure_dir, key_of
 from ..runner import Result, Violation
 
-SCALARS = ["u8", "i32", "u64", "bool", "String", "f64"]
+SCALARS = ["u8", "i32", "u64", "bool", "String", "f64", "char", "i8", "i16", "u16", "u32", "i64", "f32", "usize", "std::num::NonZeroU32"]
 SAMPLES = {
+    "char": ["'a'", "'\\u{e9}'", "'\\u{2022}'", "'\\u{1F600}'"], "i8": ["-128i8", "127i8"], "i16": ["-32768i16", "7i16"], "u16": ["0u16", "65535u16"],
+    "u32": ["0u32", "4294967295u32"], "i64": ["-9223372036854775808i64", "9223372036854775807i64"], "f32": ["1.5f32", "-0.25f32"],
+    "usize": ["0usize", "4096usize"], "std::num::NonZeroU32": ["std::num::NonZeroU32::new(1).unwrap()", "std::num::NonZeroU32::new(4294967295).unwrap()"],
     "u8": ["0u8", "255u8"], "i32": ["-7i32", "2147483647i32"], "u64": ["0u64", "18446744073709551615u64"], "bool": ["true", "false"],
     "String": ['String::new()', '"h\\u{e9}llo w".to_string()'], "f64": ["1.5f64", "-0.25f64"],
 }
@@ -43,6 +46,8 @@ def rust_ty(t):
         return "Box<%s>" % rust_ty(t[1])
     if k == "map":
         return "std::collections::BTreeMap<String, %s>" % rust_ty(t[1])
+    if k == "set":
+        return "std::collections::BTreeSet<%s>" % rust_ty(t[1])
     if k == "ref":
         return t[1]
     raise ValueError(t)
@@ -68,6 +73,8 @@ def samples(t, inner_samples):
         return ["Box::new(%s)" % x for x in s]
     if k == "map":
         return ["std::collections::BTreeMap::new()", '[("k".to_string(), %s)].into_iter().collect()' % s[0]]
+    if k == "set":
+        return ["std::collections::BTreeSet::new()", "[%s, %s].into_iter().collect()" % (s[0], s[-1])]
     raise ValueError(t)
 
 
@@ -75,7 +82,7 @@ def field_types(refname=None):
     out = list(SCALARS)
     for x in ("i32", "String"):
         out += [("opt", x), ("vec", x), ("arr", x), ("box", x), ("map", x)]
-    out += [("tuple", "i32", "String"), ("opt", ("vec", "u8")), ("vec", ("opt", "bool"))]
+    out += [("tuple", "i32", "String"), ("opt", ("vec", "u8")), ("vec", ("opt", "bool")), ("set", "String"), ("set", "i32"), ("opt", ("set", "u8")), ("opt", "char"), ("vec", "char")]
     if refname:
         out += [("ref", refname), ("opt", ("ref", refname)), ("vec", ("ref", refname)), ("box", ("ref", refname)), ("map", ("ref", refname))]
     return out
